@@ -143,6 +143,25 @@ Judge(e) ==
            \cup Tag("add.", MergeContract(e.ad, e.x, e.y, Augment)) \cup wf("Add", e.ad)
            \cup Tag("intersect.", IntersectContract(e.ix, e.x, e.y)) \cup wf("Intersect", e.ix)
            \cup (IF e.same /\ e.argsame THEN {} ELSE {"frame.Query.operand"})
+       [] e.op = "ExtractAll" ->
+           \* stateless: one (graph, start) of the exported universe through NodeGraph, NodeSiblings, NodeDescendants(1..3)
+           LET g == e.g s == e.id
+               wf(name, r) == IF IsNil(r) \/ ~WellFormed(g) THEN {}
+                              ELSE Tag(name \o ".", WFClause(r)) \cup (IF Normalised(r) THEN {} ELSE {name \o ".normalised"})
+               empty(r) == IsNil(r) \/ r.nodes = <<>> IN
+           IF ~HasNode(g, s)
+           THEN (IF empty(e.graph) THEN {} ELSE {"graph.unknown-start"}) \cup (IF empty(e.sib) THEN {} ELSE {"siblings.unknown-start"})
+                \cup (IF \A k \in 1..3 : empty(e.desc[k]) THEN {} ELSE {"descendants.unknown-start"})
+                \cup (IF e.same THEN {} ELSE {"frame.Query.operand"})
+           ELSE Tag("graph.", ExtractContract(e.graph, g, s, GraphIds(g, s), Followed(g, s, GraphIds(g, s)))) \cup wf("Graph", e.graph)
+                \cup Tag("siblings.", ExtractContract(e.sib, g, s, SiblingIds(g, s), {t \in Induced(g, SiblingIds(g, s)) : t[1] = s}))
+                \cup wf("Siblings", e.sib)
+                \cup UNION {Tag("descendants.", ExtractContract(e.desc[k], g, s, Reach(g, s, k),
+                                     {t \in Followed(g, s, Reach(g, s, k)) : t[1] \in Reach(g, s, k - 1)})) \cup wf("Descendants", e.desc[k])
+                            : k \in 1..3}
+                \cup (IF \A k \in 1..2 : IsNil(e.desc[k]) \/ IsNil(e.desc[k + 1]) \/ Ids(e.desc[k]) \subseteq Ids(e.desc[k + 1])
+                      THEN {} ELSE {"law.descendants.monotone"})
+                \cup (IF e.same THEN {} ELSE {"frame.Query.operand"})
        [] e.op = "CopyElem" ->
            \* copies of single elements: same content, equal to the source, no storage in common; nothing else changes
            UNION {(IF c.content THEN {} ELSE {"copy." \o c.kind \o ".content"})
